@@ -35,6 +35,9 @@ struct Case {
     /// sequence of refresh operations: (procedure, remaining set as bitmask over the ROOT id list)
     path: Vec<(RKind, u32)>,
     seed: String,
+    /// tiny layer: run the single refresh of `path` under EVERY coefficient vector
+    #[serde(default)]
+    tiny_all: bool,
 }
 
 #[derive(Clone)]
@@ -46,10 +49,30 @@ pub struct Node<C: Suite> {
     pub prev: Option<BTreeMap<Id<C>, KeyPackage<C>>>,
 }
 
+thread_local! {
+    /// tiny layer: explicit answers for the first draws of each participant's random source
+    static FORCED: std::cell::RefCell<Vec<Vec<u32>>> = const { std::cell::RefCell::new(Vec::new()) };
+}
+fn forced(rng: ScriptedRng, who: usize) -> ScriptedRng {
+    FORCED.with(|f| {
+        let f = f.borrow();
+        match f.get(who) {
+            Some(v) => {
+                let mut r = rng;
+                for (k, x) in v.iter().enumerate() {
+                    r = r.with_dev(k, crate::rng::Dev::Bytes(x.to_le_bytes().to_vec()));
+                }
+                r
+            }
+            None => rng,
+        }
+    })
+}
+
 pub fn refresh_dealer<C: Suite>(node: &Node<C>, members: &[Id<C>], seed: &str) -> Result<Node<C>, String> {
     let mut list = members.to_vec();
     list.rotate_left(1); // deliberately not sorted
-    let mut rng = ScriptedRng::ctr(format!("refresh-dealer:{seed}"));
+    let mut rng = forced(ScriptedRng::ctr(format!("refresh-dealer:{seed}")), 0);
     let (shares, pkp) = C::w_compute_refreshing_shares(node.pkp.clone(), &list, &mut rng).map_err(e2s("compute_refreshing_shares"))?;
     if shares.len() != list.len() {
         return Err(format!("compute_refreshing_shares returned {} shares for {} identifiers", shares.len(), list.len()));
@@ -74,8 +97,8 @@ pub fn refresh_dkg<C: Suite>(node: &Node<C>, members: &[Id<C>], seed: &str, t_us
     let n = members.len() as u16;
     let mut sp1 = BTreeMap::new();
     let mut p1 = BTreeMap::new();
-    for id in members {
-        let mut rng = ScriptedRng::ctr(format!("refresh-dkg:{seed}:{}", id_hex::<C>(id)));
+    for (who, id) in members.iter().enumerate() {
+        let mut rng = forced(ScriptedRng::ctr(format!("refresh-dkg:{seed}:{}", id_hex::<C>(id))), who);
         let (s, p) = C::w_refresh_dkg_part1(*id, n, t_used, &mut rng).map_err(e2s("refresh_dkg_part1"))?;
         sp1.insert(*id, s);
         p1.insert(*id, p);
@@ -168,6 +191,7 @@ impl Prop for C10 {
                                         root,
                                         path: path.clone(),
                                         seed: format!("s{seed}"),
+                                        tiny_all: false,
                                     })
                                     .unwrap(),
                                 );
@@ -191,6 +215,24 @@ impl Prop for C10 {
                 }
             }
         }
+        // tiny layer: every coefficient vector of one refresh
+        for suite in ["tiny7", "tiny11"] {
+            for (n, t) in [(3u16, 2u16), (4, 2), (4, 3)] {
+                for cm in children_masks((1u32 << n) - 1, n as usize, t as usize) {
+                    for k in [RKind::Dealer, RKind::Dkg] {
+                        let draws = match k {
+                            RKind::Dealer => t as u32 - 1,
+                            RKind::Dkg => cm.count_ones() * (t as u32 - 1),
+                        };
+                        let q: u64 = if suite == "tiny7" { 7 } else { 11 };
+                        if q.pow(draws) > tier.pick(400, 20000) {
+                            continue;
+                        }
+                        out.push(serde_json::to_value(Case { suite: suite.to_string(), n, t, idkind: IdKind::Seq, root: KeySrc::Dealer, path: vec![(k, cm)], seed: format!("s{seed}"), tiny_all: true }).unwrap());
+                    }
+                }
+            }
+        }
         // simplest first
         out.sort_by_key(|c| c["path"].as_array().map(|a| a.len()).unwrap_or(0));
         out
@@ -208,7 +250,68 @@ fn shapes(tier: Tier) -> Vec<(u16, u16)> {
     }
 }
 
+fn run_tiny_all<C: Suite>(c: &Case) -> Outcome {
+    let mut o = Outcome::new();
+    let tag = format!("C10/{}", C::name());
+    // a root without degenerate values
+    let mut grp = None;
+    for k in 0..50 {
+        if let Ok(g) = cached_group::<C>(c.root, c.n, c.t, c.idkind, &format!("{}.{k}", c.seed)) {
+            grp = Some(g);
+            break;
+        }
+    }
+    let Some(grp) = grp else {
+        o.fail(format!("{tag}/setup"), "no root group".to_string());
+        return o;
+    };
+    let vk0 = *grp.pkp.verifying_key();
+    let root = Node::<C> { t: c.t, kps: grp.kps.clone(), pkp: grp.pkp.clone(), prev: None };
+    let (kind, mask) = c.path[0];
+    let members = pick::<C>(&grp.ids, mask);
+    let parts = if kind == RKind::Dealer { 1 } else { members.len() };
+    let per = c.t as usize - 1;
+    let q = sc_bytes::<C>(&neg::<C>(one::<C>()));
+    let qv = u16::from_be_bytes([q[0], q[1]]) as usize + 1;
+    for vecs in product(qv, parts * per) {
+        let f: Vec<Vec<u32>> = (0..parts).map(|p| vecs[p * per..(p + 1) * per].iter().map(|x| *x as u32).collect()).collect();
+        FORCED.with(|x| *x.borrow_mut() = f);
+        let r = match kind {
+            RKind::Dealer => refresh_dealer::<C>(&root, &members, "tiny"),
+            RKind::Dkg => refresh_dkg::<C>(&root, &members, "tiny", c.t),
+        };
+        FORCED.with(|x| x.borrow_mut().clear());
+        o.eval(true);
+        o.count("transitions", 1);
+        o.count("tiny_refresh_vectors", 1);
+        let ctx = format!("tiny n={} t={} {kind:?} R={mask:b} coefficients={vecs:?}", c.n, c.t);
+        match r {
+            Ok(node) => {
+                o.count("states", 1);
+                o.count("traces", 1);
+                check_links::<C>(&mut o, &tag, if kind == RKind::Dealer { "dealer-refresh" } else { "dkg-refresh" }, &ctx, &node, &vk0, vecs.iter().all(|x| *x == 0));
+            }
+            Err(e) => {
+                // a zero proof nonce / unencodable identity in the proof of knowledge is the only legitimate failure
+                if kind == RKind::Dkg && e.contains("refresh_dkg_part1") {
+                    o.count("tiny_degenerate", 1);
+                } else {
+                    o.fail(format!("{tag}/{kind:?}-refresh-failed"), format!("{ctx}: {e}"));
+                }
+            }
+        }
+        if o.findings.len() > 5 {
+            break;
+        }
+    }
+    o.class("tiny-all");
+    o
+}
+
 fn run_case<C: Suite>(c: &Case) -> Outcome {
+    if c.tiny_all {
+        return run_tiny_all::<C>(c);
+    }
     let mut o = Outcome::new();
     let tag = format!("C10/{}", C::name());
     let grp = match cached_group::<C>(c.root, c.n, c.t, c.idkind, &c.seed) {
@@ -260,6 +363,12 @@ fn run_case<C: Suite>(c: &Case) -> Outcome {
 }
 
 pub fn check_node<C: Suite>(o: &mut Outcome, tag: &str, kindtag: &str, ctx: &str, node: &Node<C>, vk0: &fc::VerifyingKey<C>) {
+    check_links::<C>(o, tag, kindtag, ctx, node, vk0, false);
+    check_signing::<C>(o, tag, kindtag, ctx, node);
+}
+
+/// invariants 1 and 2: key fixed, packages re-linked
+pub fn check_links<C: Suite>(o: &mut Outcome, tag: &str, kindtag: &str, ctx: &str, node: &Node<C>, vk0: &fc::VerifyingKey<C>, zero_refresh: bool) {
     let t = node.t;
     let members: Vec<_> = node.kps.keys().copied().collect();
     // 1. group key unchanged
@@ -292,12 +401,18 @@ pub fn check_node<C: Suite>(o: &mut Outcome, tag: &str, kindtag: &str, ctx: &str
                     node.prev.as_ref().and_then(|p| p.get(id)).map(|p| p.verifying_share() == kp.verifying_share()).unwrap_or(false)),
             );
         }
-        if let Some(prev) = &node.prev {
+        if let (Some(prev), false) = (&node.prev, zero_refresh || C::TINY) {
             if prev[id].signing_share() == kp.signing_share() {
                 o.fail(format!("{tag}/{kindtag}/share-not-refreshed"), format!("{ctx}: member {} kept its old share", id_short::<C>(id)));
             }
         }
     }
+}
+
+/// invariants 3 and 4: new shares sign, mixes and removed members fail
+pub fn check_signing<C: Suite>(o: &mut Outcome, tag: &str, kindtag: &str, ctx: &str, node: &Node<C>) {
+    let t = node.t;
+    let members: Vec<_> = node.kps.keys().copied().collect();
     // 3. every t-subset (and the whole set) signs
     let m = message(2);
     let k = members.len();
